@@ -39,6 +39,13 @@ def crash(message, forced=None):
     return CRASH_CLASSES[int(h64(message)[:6], 16) % len(CRASH_CLASSES)](message)
 
 
+def message_as_raised(message):
+    """Resolvers may raise the resolver error without any message: an eighth of the world's do."""
+    from ..core import h64
+
+    return "" if int(h64(message)[4:8], 16) % 8 == 0 else message
+
+
 def salt_of(kwargs):
     """Canonical text of coerced arguments (python names / internal enum values)."""
     def c(v):
@@ -295,8 +302,8 @@ class Binding(object):
             if int(h64(out[1])[:4], 16) % 4 == 0:
                 # a resolver relaying an upstream error may have set a path of its own: the response
                 # still has to report the path of the field that failed here
-                raise ResolverError(out[1], path=["upstream", 3, "field"], extensions=out[2])
-            raise ResolverError(out[1], extensions=out[2])
+                raise ResolverError(message_as_raised(out[1]), path=["upstream", 3, "field"], extensions=out[2])
+            raise ResolverError(message_as_raised(out[1]), extensions=out[2])
         if out[0] == "crash":
             raise crash(out[1], getattr(self, "crash_class", None))
         return self.to_python(out[1])
